@@ -143,6 +143,11 @@ def run(ctx):
                     replay["allocator_state_vs_layout"] = sig
                     if ev == "close" and sig and sig["larger"]:
                         key = "c19-v3-integrity-false-after-clean-close"
+                    elif ev == "close" and "grew=1" in line.split(" "):
+                        # recorded finding: the file was trimmed at close so tightly that 3.0.0 has to GROW it while
+                        # opening it; 3.0.0 then reports Ok(false) once (its own unpublished-growth behaviour, the
+                        # same as this tree's recorded C11 finding) and Ok(true) from the second call on
+                        key = "c19-v3-integrity-false-close-grown-on-open"
                     elif ev == "close":
                         key = "c19-v3-integrity-false-close-other"
                     else:
